@@ -64,7 +64,8 @@ def _run_width(w):
 def _c18(failure, fd):
     g = {"__builtins__": {"any": any, "all": all, "len": len, "str": str}}
     g.update({"kind": failure.get("rt_kind"), "path": failure.get("path", ""), "width": failure.get("width"),
-              "wrapped_changed": failure.get("wrapped_changed"), "got": failure.get("got", ""), "want": failure.get("want", "")})
+              "wrapped_changed": failure.get("wrapped_changed"), "got": failure.get("got", ""), "want": failure.get("want", ""),
+              "type_line_len": failure.get("type_line_len"), "typ_ws_only": failure.get("typ_ws_only"), "int": int})
     return bool(eval(fd["cond"], g))
 
 
@@ -96,7 +97,7 @@ def check(run, record_expected=False):
             run.failure("wrap_%s/%s" % (f["kind"], f["path"].split(".")[0] + "." + f["path"].split(".")[-1]),
                         "width %s, %s case %s: %s: unwrapped gives %s, wrapped gives %s" % (w, f["kind"], f["label"], f["path"], f.get("want"), f.get("got")),
                         {"kind": "wrap", "rt_kind": f["kind"], "width": w, "path": f["path"], "label": f["label"], "want": f.get("want"),
-                         "got": f.get("got"), "wrapped_changed": f.get("wrapped_changed")})
+                         "got": f.get("got"), "wrapped_changed": f.get("wrapped_changed"), "type_line_len": f.get("type_line_len"), "typ_ws_only": f.get("typ_ws_only")})
     coverage = {
         "explanation": "DEDUCTIVE: type obligations on the module constants (line_length: int, fill bound to it) and the re-joining contracts "
                        "(needs_quoting NQ-norm: the type text handed to the parser has no line break; _set_name_and_type): %d of %d. BOUNDED decider "
